@@ -161,6 +161,25 @@ theorem C09_lock_discipline : lockDisciplineOk XmppModel.Generated.C09.lockFacts
 example : lockOk ("xmpp.(*lockWriteCloser).Close", "release-plain", 2) = false := by decide
 example : lockOk ("xmpp.(*Session).Encode", "handoff", 0) = false := by decide
 
+/-! ## Goroutines started by the code in scope
+
+A handler that waits for a goroutine it started can be wedged by it (the goroutine blocks on a
+pipe nobody drains after a write error, Serve never returns); one that does not wait can
+leak it.  Which is which is regenerated (`harness/c09/gofacts.go`) and pinned here: a new
+`go` statement in handler code, or a function that starts to wait for its goroutine, breaks
+this obligation and has to be reviewed against the error paths (the dynamic side: every
+handler runs with the output closed / failing at every write index, `servex`).  Reviewed:
+blocklist's handler ranges over the list goroutine's channel and stops at the first write
+error (the goroutine then leaks, Serve goes on); disco's handler does not wait for its
+producer; history's query goroutine is not waited for; muc's join / leave wait in a select
+that also watches the caller's context. -/
+theorem C09_goroutines_reviewed :
+    XmppModel.Generated.C09.goroutines = some [
+      ("xmpp.setDeadline", false), ("xmpp.setWriteDeadline", false),
+      ("blocklist.(Handler).HandleIQ", true), ("disco.(*discoHandler).HandleIQ", false),
+      ("history.(*Handler).FetchIQ", false), ("muc.(*Channel).LeavePresence", true),
+      ("muc.(*Channel).JoinPresence", true)] := by decide +kernel
+
 /-! ## Known finding: the SCRAM client of the SASL dependency (negotiation, before Serve)
 
 Full-strength statement (false for mellium.im/sasl v0.3.2, see `Model/ScramLoop.lean`):
